@@ -42,10 +42,10 @@ func vH_C05_one_wave2997() {
 func vH_C05_one_wave25() {
 	vC05One(vAsset_WAVE_vectors_cfhd_sets_12_5_25_50_t3_2022_10_17(), "1", 5)
 }
-func vH_C05_one_alt_V300()       { vC05One(vAsset_testpic_alt_seg_dur_stl(), "V300", 13) }
-func vH_C05_one_syn_irregular3() { vC05One(vAsset_syn_irregular3(), "V1", 5) }
-func vH_C05_one_syn_subsecond()  { vC05One(vAsset_syn_subsecond(), "V1", 1) }
-func vH_C05_one_testpic8s()      { vC05One(vAsset_testpic_8s(), "V300", 17) }
+func vH_C05_one_alt_V300()         { vC05One(vAsset_testpic_alt_seg_dur_stl(), "V300", 13) }
+func vH_C05_one_syn_irregular3()   { vC05One(vAsset_syn_irregular3(), "V1", 5) }
+func vH_C05_one_syn_subsecond()    { vC05One(vAsset_syn_subsecond(), "V1", 1) }
+func vH_C05_one_testpic8s()        { vC05One(vAsset_testpic_8s(), "V300", 17) }
 func vH_C05_pair1_testpic2s_V300() { vC05(vAsset_testpic_2s(), "V300", 1, 0) }
 func vH_C05_pair1_wave2997() {
 	vC05(vAsset_WAVE_vectors_cfhd_sets_14_985_29_97_59_94_t1_2022_10_17(), "1", 1, 0)
